@@ -57,7 +57,7 @@ class Check(BaseCheck):
                     continue
                 n = len(c["v"])
                 vids = [int(x) for x in rng.choice(n, size=int(rng.integers(1, 4)))]
-                yield dict(kind=kind, v=c["v"], t=c["t"], vids=vids, m=float(rng.uniform(0.1, 5.0)), name=c["name"], reuse=bool(rng.random() < 0.3))
+                yield dict(kind=kind, v=c["v"], t=c["t"], vids=vids, m=float(rng.uniform(0.1, 5.0)), name=c["name"], reuse=bool(rng.random() < 0.3), pres=c.get("pres"), vdtype=c.get("vdtype"))
         from .. import corr_fem
         for c in corr_fem.aniso_meshes(seed + 73, max(3, n_tri // 5)):
             n = len(c["v"])
@@ -70,6 +70,7 @@ class Check(BaseCheck):
         n_tri, n_tet = (20, 8) if self.quick else (300, 100)
         for case in self.problems(self.seed, n_tri, n_tet):
             v, t = case["v"], case["t"]
+            gen.use(case)
             n = len(v)
             stats.case(core.mesh_key(v, t, case["vids"], case["m"]), cls=[case["kind"] + ":" + case["name"], "seeds:%d" % len(set(case["vids"]))],
                        sample=dict(kind=case["kind"], name=case["name"], n=n, vids=case["vids"], m=case["m"]))
